@@ -76,6 +76,28 @@ class SchemeArgument(str, Enum):
         return str(order)
 
 
+def _split_abs(cond):
+    """Abs(a) > b is (a > b) | (a < -b), Abs(a) < b is (a < b) & (a > -b), for all real a and b"""
+    if not isinstance(cond, sympy.Basic):
+        return cond
+
+    def split(rel):
+        lhs, rhs = rel.lhs, rel.rhs
+        if isinstance(lhs, sympy.Abs) and not rhs.has(sympy.Abs):
+            a = lhs.args[0]
+            if isinstance(rel, sympy.StrictGreaterThan):
+                return sympy.Or(a > rhs, a < -rhs)
+            if isinstance(rel, sympy.GreaterThan):
+                return sympy.Or(a >= rhs, a <= -rhs)
+            if isinstance(rel, sympy.StrictLessThan):
+                return sympy.And(a < rhs, a > -rhs)
+            if isinstance(rel, sympy.LessThan):
+                return sympy.And(a <= rhs, a >= -rhs)
+        return rel
+
+    return cond.replace(lambda e: isinstance(e, sympy.core.relational.Relational), split)
+
+
 def _print_Piecewise(
     printer: CodePrinter, expr: sympy.Piecewise, **kwargs
 ) -> tuple[tuple[str, ...], tuple[str, ...]]:
@@ -88,29 +110,38 @@ def _print_Piecewise(
         else:
             return printer._print(cond)
 
-    # Only the conditions are simplified. The branch values are hidden behind dummy
-    # symbols meanwhile, because sympy would rewrite them as well (split exponentials,
-    # expand Abs of trigonometric functions, ...) into expressions that compute
-    # something else in floating point
-    hidden: dict[sympy.Basic, sympy.Dummy] = {}
-    try:
-        simplified = sympy.simplify(
-            sympy.Piecewise(
-                *[(hidden.setdefault(arg.expr, sympy.Dummy()), arg.cond) for arg in expr.args]
-            )
-        ).xreplace({dummy: value for value, dummy in hidden.items()})
-    except TypeError:
-        # sympy may fail to simplify ("cannot determine truth value of Relational")
-        simplified = expr
-    if (
-        isinstance(simplified, sympy.Piecewise)
-        and len(simplified.args) > 0
-        and simplified.args[-1].cond == True  # noqa: E712
-    ):
-        # Only use the simplified expression if it still is a Piecewise with a default
-        # branch. If the conditional simplifies away (e.g both branches are equal) we
-        # print it as it was written
-        expr = simplified
+    if any(isinstance(arg.cond, sympy.Basic) and arg.cond.has(sympy.Piecewise) for arg in expr.args):
+        # A condition that compares conditionals is handed to sympy, which folds them into one
+        # logical expression. The branch values are hidden behind dummy symbols meanwhile,
+        # because sympy would rewrite them as well (split exponentials, expand Abs of
+        # trigonometric functions, ...) into expressions that compute something else
+        hidden: dict[sympy.Basic, sympy.Dummy] = {}
+        try:
+            simplified = sympy.simplify(
+                sympy.Piecewise(
+                    *[(hidden.setdefault(arg.expr, sympy.Dummy()), arg.cond) for arg in expr.args]
+                )
+            ).xreplace({dummy: value for value, dummy in hidden.items()})
+        except TypeError:
+            # sympy may fail to simplify ("cannot determine truth value of Relational")
+            simplified = expr
+        if (
+            isinstance(simplified, sympy.Piecewise)
+            and len(simplified.args) > 0
+            and simplified.args[-1].cond == True  # noqa: E712
+        ):
+            # Only use the simplified expression if it still is a Piecewise with a default
+            # branch. If the conditional simplifies away (e.g both branches are equal) we
+            # print it as it was written
+            expr = simplified
+    else:
+        # Every other condition is printed as it is written, except that a comparison of an
+        # absolute value is split into the two comparisons it stands for. sympy.simplify is
+        # not an equivalence on conditions: ~((y > 0) & (y < 3)) becomes (y >= 3) | (y < 0),
+        # G >= -1*0.25 becomes G > -0.25, Abs(sin(x)) is expanded on [0, pi] only
+        expr = sympy.Piecewise(
+            *[(arg.expr, _split_abs(arg.cond)) for arg in expr.args], evaluate=False
+        )
 
     exprs = [printer._print(arg.expr) for arg in expr.args]
     conds = [print_cond(arg.cond) for arg in expr.args]
